@@ -14,7 +14,7 @@ CLAUSE = {1: "failed-op-had-effect", 2: "exception-class-changed", 3: "deciding-
           7: "registrations-differ-from-twin", 8: "unmodelled-values-differ-from-twin"}
 CORR = {1: "outcome", 2: "state", 3: "handler-log", 4: "fired", 5: "twin-state", 6: "registrations"}
 EXNS = ["TraitError", "ValueError", "AttributeError", "RuntimeError"]
-OPAQUE = ["SetW", "SetPW", "SwapDeep", "SetX2", "SetRG", "SetBR"]      # operations outside the Gallina model (law only)
+OPAQUE = ["SetW", "SetPW", "SwapDeep", "SetX2", "SetRG", "SetBR", "SetEq"]      # operations outside the Gallina model (law only)
 
 
 def st_term(s):
@@ -133,7 +133,7 @@ def ncalls(op):
         return len(op[1]) + len(op[2])
     if k == "SetAdE":
         return op[1]
-    if k in ("SetW", "SetPW", "SwapDeep", "SetX2", "SetBR"):
+    if k in ("SetW", "SetPW", "SwapDeep", "SetX2", "SetBR", "SetEq"):
         return 0
     if k == "SetRG":
         return 1
@@ -176,7 +176,7 @@ def gen_op(rnd):
                     "SetY", "SetY", "ReadY", "SetAd2", "SetAd2", "SetXQ", "SetXQ", "ObsRemove", "ObsAdd", "AddZ", "AddZ",
                     "SetZ", "SetZ", "SUpdate2", "SUpdate2", "SetAdE", "SetAdE", "SetW", "SetW", "SetPW",
                     "SetPV", "SetPV", "SetDPV", "SetDPV", "DelPV", "RegDot", "RegDot", "UnregDot", "ReadCh", "SetCV",
-                    "SetCV", "SetU", "SetU", "SwapDeep", "SetX2", "SetX2", "SetRG", "SetBR"])
+                    "SetCV", "SetU", "SetU", "SwapDeep", "SetX2", "SetX2", "SetRG", "SetBR", "SetEq"])
     if k in ("SetX2", "SetRG", "SetBR"):
         return [k, rnd.randint(0, 9)]
     if k in ("SetX", "LAppend", "SAdd", "SetY", "SetXQ", "SetPV", "SetDPV", "SetU"):
@@ -241,6 +241,8 @@ def gen_plan(rnd, op):
         return None if rnd.random() < 0.4 else ["handler", 13, rnd.choice(EXNS)]
     if op[0] == "SetBR":
         return None if rnd.random() < 0.4 else ["handler", 14, rnd.choice(EXNS)]
+    if op[0] == "SetEq":
+        return None if rnd.random() < 0.4 else ["handler", 15, rnd.choice(EXNS)]
     if op[0] == "SwapDeep":
         # the default method of the new link object runs inside the re-hook (a change handler of `child`)
         return None if rnd.random() < 0.4 else ["handler", 11, rnd.choice(EXNS)]
@@ -278,17 +280,17 @@ TEMPLATES = [["SetX", 5], ["SetX", 1], ["SetX", 101], ["SetT", 3, 4], ["SetT", 3
              ["SUpdate2", [4], [100, 5]], ["SetAdE", 1, 3], ["SetAdE", 0, 3], ["SetW", 5], ["SetPW", 1, 6],
              ["SetPV", 5], ["SetPV", 101], ["SetDPV", 6], ["SetDPV", 102], ["DelPV"],
              ["RegDot"], ["ReadCh"], ["SetCV", 3], ["SetU", 5], ["SetU", 103], ["UnregDot"], ["SwapDeep"],
-             ["SetX2", 4], ["SetRG", 5], ["SetBR", 3]]
+             ["SetX2", 4], ["SetRG", 5], ["SetBR", 3], ["SetEq"]]
 FOLLOW = [["SetX", 6], ["LExtend", [1, 2]], ["DUpdate", [[2, 2]]], ["SUpdate", [5]], ["ReadF"], ["ReadM"], ["ReadC"],
           ["SetP", 8], ["SetAd", 2, 4], ["SIxor", [1, 8]], ["SetY", 7], ["SetAd2", 1, 5], ["AddZ"], ["SetZ", 0, 4],
           ["SetX", 3], ["SetW", 7], ["SetPW", 0, 2], ["SetW", 4], ["SetDPV", 4], ["SetPV", 6], ["SetDPV", 8], ["DelPV"],
-          ["SetDPV", 2], ["SetCV", 4], ["RegDot"], ["SetCV", 6], ["UnregDot"], ["SetCV", 7], ["SetU", 8], ["SetU", 102], ["SetX2", 6], ["SetRG", 8], ["SetBR", 2]]
+          ["SetDPV", 2], ["SetCV", 4], ["RegDot"], ["SetCV", 6], ["UnregDot"], ["SetCV", 7], ["SetU", 8], ["SetU", 102], ["SetX2", 6], ["SetRG", 8], ["SetBR", 2], ["SetEq"]]
 
 
 HANDLERS_OF = {"SetX": [0, 1, 2, 7, 3], "LAppend": [3, 4, 0], "LExtend": [3, 4], "LIadd": [3, 4], "LInsert": [3, 4],
                "LSetSlice": [3, 4], "LAssign": [3, 4], "SetY": [5, 0], "SetXQ": [0, 2], "SetW": [8, 0], "SetPW": [8],
                "SetPV": [9, 0], "SetDPV": [9, 0], "SetCV": [10, 0], "SwapDeep": [11],
-               "SetX2": [13], "SetBR": [14]}
+               "SetX2": [13], "SetBR": [14], "SetEq": [15]}
 
 
 def systematic():
